@@ -220,6 +220,11 @@ def run(ctx):
                 "require Flagmod import [checkerlang_secure_mode]", "def class checkerlang_secure_mode do def a = 1 end",
                 "def g(x) x; g(checkerlang_secure_mode = FALSE)", "do error 1 catch all do def checkerlang_secure_mode = FALSE end end",
                 "while checkerlang_secure_mode do checkerlang_secure_mode = FALSE end", "NULL",
+                "def add(a, b) FALSE; checkerlang_secure_mode += 1", "def sub(a, b) FALSE; checkerlang_secure_mode -= 1",
+                "def mul(a, b) FALSE; checkerlang_secure_mode *= 1", "def div(a, b) FALSE; checkerlang_secure_mode /= 1",
+                "def mod(a, b) FALSE; checkerlang_secure_mode %= 1", "def add = fn(a, b) FALSE; def f() do checkerlang_secure_mode += 1 end; f()",
+                "def not_equals(a, b) FALSE; def equals(a, b) FALSE; checkerlang_secure_mode += FALSE",
+                "def o = <*checkerlang_secure_mode = TRUE*>; o->checkerlang_secure_mode = FALSE; o['checkerlang_secure_mode'] = FALSE",
                 "def x1 = 1; [x1, checkerlang_secure_mode] = [2, FALSE]", "def x1 = 1; [checkerlang_secure_mode, x1] = [FALSE, 2]",
                 "def [x1, checkerlang_secure_mode] = [2, FALSE]", "def [checkerlang_secure_mode, x1] = [FALSE, 2]",
                 "def x1 = 1; def x2 = 2; [x1, checkerlang_secure_mode, x2] = [2, FALSE, 3]",
